@@ -45,6 +45,7 @@ C_BIG_ASSERT = cfg("c-big-assert", "c", target_endianness="big", enable_serializ
 C_LITTLE_ASSERT = cfg("c-little-assert", "c", target_endianness="little", enable_serialization_asserts=True)
 C_ANY_ASSERT = cfg("c-any-assert", "c", target_endianness="any", enable_serialization_asserts=True)
 C_BIG = cfg("c-big", "c", target_endianness="big")
+C_LITTLE_OVERRIDE = cfg("c-little-override", "c", target_endianness="little", enable_override_variable_array_capacity=True)
 CPP14 = cfg("cpp14", "cpp", std="c++14")
 CPP17 = cfg("cpp17", "cpp", std="c++17")
 CPP17_LITTLE_ASSERT = cfg("cpp17-little-assert", "cpp", std="c++17", target_endianness="little", enable_serialization_asserts=True)
